@@ -77,3 +77,103 @@ impl JournalBatchReader {
         && (!self.is_in_batch ==> self.batch_counter == 0 && self.items@.len() == 0 && self.cleared_keyspaces@.len() == 0 && self.checksum_builder.acc@.len() == 0)
     }
 }
+
+// ---- L-TORN, mechanised part (C03): bytes at or after the cut are zero (preallocation / zero padding), and nothing
+// made of zero bytes can complete a batch, because the End marker carries the non-zero trailer "FJL\x03"
+pub open spec fn zero_from(a: Seq<u8>, c: int) -> bool { forall|i: int| c <= i < a.len() ==> #[trigger] a[i] == 0u8 }
+pub proof fn lemma_end_marker_lies_before_the_cut(a: Seq<u8>, c: int, p: int)
+    requires 0 <= p, 0 <= c, zero_from(a, c), parse_at(a, p) matches Some((EntryV::End(_), _)),
+    ensures parse_at(a, p)->Some_0.1 == p + 13, p + 13 <= c, // [C03:L-TORN-an-End-marker-cannot-reach-into-the-zero-padding]
+{
+    // the last trailer byte (0x03) sits at p + 12; it is non-zero, hence before the cut
+    assert(a[p] == 3u8);
+    assert(a.subrange(p + 9, p + 13) == trailer());
+    assert(a.subrange(p + 9, p + 13)[3] == a[p + 12]);
+    assert(trailer()[3] == 3u8);
+    if p + 12 >= c { assert(a[p + 12] == 0u8); }
+}
+/// whatever state the reader is in and wherever it stands: if it emits a batch, that batch ended before the cut.
+/// (So a torn tail -- with or without zero padding -- can only ever be DISCARDED as a whole, never half-applied.)
+pub proof fn lemma_no_batch_completes_in_the_zero_padding(s: BRState, a: Seq<u8>, pos: int, c: int)
+    requires 0 <= c, zero_from(a, c), br_run(s, a, pos) is Batch,
+    ensures br_run(s, a, pos)->Batch_2 <= c, // [C03:L-TORN-no-batch-completes-at-or-after-the-cut]
+    decreases a.len() - pos,
+{
+    if pos >= 0 {
+        match parse_at(a, pos) {
+            None => {}
+            Some((e, p2)) => {
+                if !(p2 <= pos || p2 > a.len()) {
+                    match br_step(s, e, p2) {
+                        Step::Continue(s2) => { lemma_no_batch_completes_in_the_zero_padding(s2, a, p2, c); }
+                        Step::Emit(b, s2) => { assert(e is End); lemma_end_marker_lies_before_the_cut(a, c, pos); }
+                        _ => {}
+                    }
+                }
+            }
+        }
+    }
+}
+/// parsing an entry looks only at the entry's own bytes: two files that agree up to `m` parse alike wherever the entry ends by `m`
+pub proof fn lemma_parse_is_local(a: Seq<u8>, b: Seq<u8>, p: int, m: int)
+    requires 0 <= p, parse_at(a, p) is Some, parse_at(a, p)->Some_0.1 <= m, m <= a.len(), m <= b.len(), forall|i: int| 0 <= i < m ==> a[i] == b[i],
+    ensures parse_at(b, p) == parse_at(a, p), // [C03:L-TORN-entries-before-the-cut-parse-as-in-the-complete-file]
+{
+    let p2 = parse_at(a, p)->Some_0.1;
+    assert(p + 1 <= a.len());
+    assert forall|x: int, y: int| 0 <= x <= y <= m implies #[trigger] a.subrange(x, y) =~= b.subrange(x, y) by {}
+    if a[p] == 1 { assert(a.subrange(p + 1, p + 5) == b.subrange(p + 1, p + 5)); assert(a.subrange(p + 5, p + 13) == b.subrange(p + 5, p + 13)); }
+    else if a[p] == 3 { assert(a.subrange(p + 9, p + 13) == b.subrange(p + 9, p + 13)); assert(a.subrange(p + 1, p + 9) == b.subrange(p + 1, p + 9)); }
+    else if a[p] == 4 { assert(a.subrange(p + 1, p + 9) == b.subrange(p + 1, p + 9)); }
+    else if a[p] == 2 {
+        assert(a.subrange(p + 11, p + 13) == b.subrange(p + 11, p + 13));
+        assert(a.subrange(p + 13, p + 17) == b.subrange(p + 13, p + 17));
+        assert(a.subrange(p + 17, p + 21) == b.subrange(p + 17, p + 21));
+        assert(a.subrange(p + 3, p + 11) == b.subrange(p + 3, p + 11));
+        let kl = de16(a.subrange(p + 11, p + 13)) as int; let dl = de32(a.subrange(p + 17, p + 21)) as int;
+        assert(a.subrange(p + 21, p + 21 + kl) == b.subrange(p + 21, p + 21 + kl));
+        assert(a.subrange(p + 21 + kl, p + 21 + kl + dl) == b.subrange(p + 21 + kl, p + 21 + kl + dl));
+    }
+}
+/// L-TORN for the emitted batches: reading a torn copy (the complete file cut at `c`, then any bytes that are zero) from a
+/// position both share, in the same state, a batch emitted from the COMPLETE file that ends by the cut is emitted identically from
+/// the torn copy, at the same end position and in the same follow-up state
+pub proof fn lemma_batches_before_the_cut_are_recovered(s: BRState, full: Seq<u8>, torn: Seq<u8>, pos: int, c: int)
+    requires 0 <= pos, 0 <= c <= full.len(), c <= torn.len(), forall|i: int| 0 <= i < c ==> full[i] == torn[i],
+        br_run(s, full, pos) is Batch, br_run(s, full, pos)->Batch_2 <= c,
+    ensures br_run(s, torn, pos) == br_run(s, full, pos), // [C03:L-TORN-every-complete-batch-before-the-cut-is-recovered]
+    decreases full.len() - pos,
+{
+    match parse_at(full, pos) {
+        None => {}
+        Some((e, p2)) => {
+            if !(p2 <= pos || p2 > full.len()) {
+                match br_step(s, e, p2) {
+                    Step::Continue(s2) => {
+                        // the batch ends by c and p2 is before that end
+                        lemma_run_end_after(s2, full, p2);
+                        lemma_parse_is_local(full, torn, pos, c);
+                        lemma_batches_before_the_cut_are_recovered(s2, full, torn, p2, c);
+                    }
+                    Step::Emit(b, s2) => { lemma_parse_is_local(full, torn, pos, c); }
+                    _ => {}
+                }
+            }
+        }
+    }
+}
+/// an emitted batch ends after the position the run started from
+pub proof fn lemma_run_end_after(s: BRState, a: Seq<u8>, pos: int)
+    requires 0 <= pos, br_run(s, a, pos) is Batch,
+    ensures br_run(s, a, pos)->Batch_2 > pos,
+    decreases a.len() - pos,
+{
+    match parse_at(a, pos) {
+        None => {}
+        Some((e, p2)) => {
+            if !(p2 <= pos || p2 > a.len()) {
+                match br_step(s, e, p2) { Step::Continue(s2) => { lemma_run_end_after(s2, a, p2); } _ => {} }
+            }
+        }
+    }
+}
